@@ -60,6 +60,18 @@ def contended(draw):
     if draw(st.booleans()):
         jobs.append(jobs[draw(st.integers(0, len(jobs) - 1))])     # exact duplicate => CSE
     shape = draw(st.sampled_from(["list", "catch_all", "seq"]))
+    if draw(st.integers(0, 3)) == 0:
+        # a failing limited call and an equivalent call written differently (a hash-neutral option
+        # makes it another expression, hence another job) queue up for one unit together with other
+        # jobs: the twin is answered from the first one's recorded failure while jobs wait behind it
+        r = draw(st.sampled_from(RES))
+        uniq[0] += 1
+        fail = draw(st.sampled_from([["throw", "ValueError", "e1"], ["apply", "boom", [["lit", ["int", 1]]]],
+                                     ["list", [["lit", ["int", 1]], ["raise_now", "KeyError", "now"]]]]))
+        okj = lambda v: ["task", ["lit", ["int", v + uniq[0]]], {}, {"limits": [r]}]  # noqa: E731
+        twins = [["task", fail, {}, {"limits": [r]}], ["task", fail, {}, {"limits": [r], "tags": [["branch", "b"]]}]]
+        jobs = [okj(3000)] + twins + [okj(3100)] + (jobs[:1] if draw(st.booleans()) else [])
+        shape = draw(st.sampled_from(["catch_all", "catch_all", "list"]))
     if shape == "catch_all":
         return ["catch_all", jobs, [], None]
     if shape == "seq":
